@@ -60,6 +60,13 @@ fn p_inner_val(i: &Inner) -> &u64 {
 fn p_payload_val(p: &Payload) -> &u64 {
     &p.val
 }
+/// Identity projection: the result points at the pointer held *inside* the guard object.
+fn p_self<T: Proj>(t: &T) -> &T {
+    t
+}
+fn p_ident(x: &u64) -> &u64 {
+    x
+}
 
 /// A shared handle to a container that derefs to the concrete `ArcSwapAny` (what an
 /// `Arc<ArcSwap<..>>` is in a real program).
@@ -266,6 +273,12 @@ fn total_writes(w: &World) -> u64 {
 
 fn acc_load_static<T: Proj, S: Strategy<T> + 'static>(rc: &Rc<Cont>, cv: &ArcSwapAny<T, S>, depth: u8) -> Box<dyn Deref<Target = u64>> {
     let cr = cont_ref(rc, cv);
+    if depth >= 3 && depth % 2 == 1 {
+        // a projection to the pointer stored inline in the guard, then on into the pointee
+        let m1 = Map::new(cr, p_self::<T> as fn(&T) -> &T);
+        let m2 = Map::new(m1, p_val::<T> as fn(&T) -> &u64);
+        return Box::new(Access::load(&m2));
+    }
     match depth % 3 {
         0 => {
             let m = Map::new(cr, p_val::<T> as fn(&T) -> &u64);
@@ -430,8 +443,16 @@ pub fn final_drop_extras(ctx: Ctx) {
         let k = Constant(42u64);
         let s = *Access::load(&k);
         let d = *DynAccess::load(&k);
-        if s != 42 || d != 42 {
-            rt::fail("access", format!("Constant(42) loads {} / {}", s, d));
+        // a Map over a Constant: the projected reference points into the guard object itself
+        let mk = Map::new(Constant(4242u64), p_ident as fn(&u64) -> &u64);
+        let g1 = Access::load(&mk);
+        let moved = Box::new(g1);
+        let filler = [7u64; 16];
+        let m = **moved;
+        let md = *DynAccess::load(&mk);
+        std::hint::black_box(&filler);
+        if s != 42 || d != 42 || m != 4242 || md != 4242 {
+            rt::fail("access", format!("Constant(42) loads {} / {}; Map over Constant(4242) loads {} / {}", s, d, m, md));
             return;
         }
     }
